@@ -192,6 +192,7 @@ func (r *runnableStep) Start(_ map[string]any, runID string, stageChangeHandler 
 		runID: runID,
 	}
 
+	s.wg.Add(1)
 	go s.run()
 
 	return s, nil
@@ -249,6 +250,8 @@ func (r *runningStep) CurrentStage() string {
 
 func (r *runningStep) Close() error {
 	r.cancel()
+	// Wait for the step goroutine, so that no notification is sent after the step was closed.
+	r.wg.Wait()
 	return nil
 }
 
@@ -257,7 +260,6 @@ func (r *runningStep) ForceClose() error {
 }
 
 func (r *runningStep) run() {
-	r.wg.Add(1)
 	defer func() {
 		close(r.name)
 		r.wg.Done()
